@@ -411,10 +411,18 @@ func extFormatFloat(fr *frame, args []value) value {
 		return sign + "0"
 	}
 	isInt := tb.fpCmp(opFPEq, ax, tb.fpUn(opFPRTI, ax, rmRTZ))
-	limInt := 2147483648.0
-	if f == 'g' {
-		limInt = 1e21 // %g switches to exponent at 1e21 for shortest; keep below
+	// bounds of the digit model (stated in the evidence): quick tier smaller
+	limInt := 100000.0
+	limFrac := 128.0
+	if i.opts.Tier > 0 {
 		limInt = 2147483648.0
+		limFrac = 1048576.0
+	}
+	if f == 'g' && limInt > 1000000.0 {
+		limInt = 1000000.0 // 'g' with shortest precision switches to exponent form at 1e6
+		if limFrac > 1000000.0 {
+			limFrac = 1000000.0
+		}
 	}
 	if i.branch(tb.And(isInt, tb.fpCmp(opFPLt, ax, tb.F64(limInt)))) {
 		n := tb.FPToUBV(32, ax)
@@ -427,7 +435,7 @@ func extFormatFloat(fr *frame, args []value) value {
 	if f == 'g' {
 		lo = 0.0625 // 'g' uses exponent form below 1e-4 only
 	}
-	if i.branch(tb.And(is16, tb.And(tb.fpCmp(opFPLt, ax, tb.F64(1048576)), tb.fpCmp(opFPLe, tb.F64(lo), ax)))) {
+	if i.branch(tb.And(is16, tb.And(tb.fpCmp(opFPLt, ax, tb.F64(limFrac)), tb.fpCmp(opFPLe, tb.F64(lo), ax)))) {
 		n := tb.FPToUBV(32, s16)
 		ip := tb.bvBin(opBVLShr, n, tb.BV(32, 4))
 		fp := mkval(tb.Extract(3, 0, n), types.Uint8) // 4-bit value in a byte kind is fine for concretize
@@ -445,7 +453,7 @@ func extFormatFloat(fr *frame, args []value) value {
 		frac := strings.TrimRight(fmt.Sprintf("%04d", fv*625), "0")
 		return mkstrConcat(sign, append(i.decimalDigits(ip), strBytes("."+frac)...))
 	}
-	panic(abortPath{"unsupported", "FormatFloat of a symbolic double outside the modelled domain (specials, integers < 2^31, k/16 < 2^20)"})
+	panic(abortPath{"unsupported", "FormatFloat of a symbolic double outside the modelled domain (specials, small integers, k/16)"})
 }
 
 func mkstrConcat(prefix string, bs []value) value {
